@@ -160,7 +160,7 @@ class Native:
         env = dict(kani_run.BASE_ENV)
         env["VERIF_REPLAY"] = ";".join("%s=%s" % (k, v) for k, v in inputs.items() if v is not None)
         env["CARGO_TARGET_DIR"] = os.path.join(self.crate, "target_native")
-        p = subprocess.run(["cargo", "test", "--offline", "--lib", test, "--", "--nocapture", "--test-threads=1"],
+        p = subprocess.run(["cargo", "test", "--offline", "--lib", test, "--", "--exact", "--nocapture", "--test-threads=1"],
                            cwd=self.crate, env=env, capture_output=True, text=True, timeout=900)
         out = {}
         for m in re.finditer(r"OUT (\w+)=(.*)$", p.stdout, re.M):
@@ -1033,11 +1033,25 @@ def c20_columns_group(mir, ctx):
         (r"Vec::<Column>::len$", m_const(n)),
         (r"<Vec<Column> as Deref>::deref$", m_const(OpaqueV("slice"))),
         (r"impl \[Column\]>::iter$", m_const(OpaqueV("iter"))),
+        (r"impl \[Column\]>::(get|first|last)(::<usize>)?$|^core::slice::get$", None),      # placeholder, replaced below
         (r"as Iterator>::any::<", m_const(BoolV(any_pk.term))),
         (r"Argument::<'_>::new_(display|debug)::<", m_const(OpaqueV("fmtarg"))),
         (r"Arguments::<'_>::new::<", m_const(OpaqueV("fmtargs"))),
         (r"^format$", m_const(OpaqueV("string"))), (r"^must_use::<String>$", m_const(OpaqueV("string"))),
     ]
+
+    def m_get(ex, callee, args, pc, events):
+        # columns.get(i) / first() / last(): Some exactly when the index is inside the (symbolic) length
+        if "first" in callee or "last" in callee:
+            cond = "(>= %s 1)" % n.term
+        else:
+            i = ex.load(args[1])
+            if not isinstance(i, IntV):
+                raise EncodingError("slice::get with index %r" % (i,))
+            cond = "(< %s %s)" % (i.term, n.term)
+        return [(pc + [cond], events, EnumV(variant=1, fields=[OpaqueV("column")])), (pc + [s_not(cond)], events, EnumV(variant=0, fields=[]))]
+
+    models = [(rx, (m_get if f is None else f)) for rx, f in models]
 
     def stop_at(f, bb, term):
         if "std::io::Error::new::<" in term:
@@ -1046,7 +1060,8 @@ def c20_columns_group(mir, ctx):
             return "passed"
         return None
 
-    ex = M.Exec(mir, ctx, models=models, stop_at=stop_at)
+    ex = M.Exec(mir, ctx, models=models, stop_at=stop_at, havoc_unknown=True)
+    ex.no_inline = [r"Column::", r"Table::", r"Category::"]      # what the error message is built from is irrelevant to the limit
     pkg = RefV(OpaqueV("package"))
     outs = ex.run(fn, [pkg, OpaqueV("table_name"), OpaqueV("columns")])
     outs = outs + ex._pending_panics
@@ -1713,8 +1728,16 @@ def iter_models(ctx, lens, consistent=False):
             return TupleV([M.mk_int(pos, "usize"), v]), pos
         mm = re.match(r"^it#(\d+)\|(.*)$", desc)
         if not mm:
-            raise EncodingError("iterator descriptor %r" % desc)
-        iid, under = int(mm.group(1)), mm.group(2)
+            # an iterator obtained from a call this encoding does not know (map.keys(), chars(), ...): a position over an
+            # opaque collection named after the iterator value itself
+            imp = ex.heap.setdefault("$implicit", {})
+            if desc not in imp:
+                its = ex.heap.setdefault("$iters", [])
+                its.append(0)
+                imp[desc] = len(its) - 1
+            iid, under = imp[desc], "seq(%s)" % desc
+        else:
+            iid, under = int(mm.group(1)), mm.group(2)
         pos = ex.heap["$iters"][iid]
         ex.heap["$iters"][iid] = pos + 1
         ident = "%s[%d]" % (under, pos)
@@ -1731,7 +1754,9 @@ def iter_models(ctx, lens, consistent=False):
         if desc.startswith("enum("):
             return leaves(desc[5:-1])
         mm = re.match(r"^it#(\d+)\|(.*)$", desc)
-        return [(int(mm.group(1)), mm.group(2))] if mm else []
+        if mm:
+            return [(int(mm.group(1)), mm.group(2))]
+        return []
 
     def m_is_empty(ex, callee, args, pc, events):
         name = coll(what_of(ex, args[0]))
@@ -3410,6 +3435,44 @@ def c12_column_lookup_group(mir, ctx):
     return [g]
 
 
+def c16_loaded_pool_group(mir, ctx):
+    """StringPoolBuilder::build_from_data with its entry loop unrolled (<= 2 entries): the pool it
+    returns is never marked modified -- the premise of C16's protocol law (a package that was only
+    opened has clean flags), for the string-pool flag."""
+    cands = [f for n, fs in mir.fns.items() for f in fs if n.endswith("::build_from_data")]
+    if len(cands) != 1:
+        raise EncodingError("build_from_data not found uniquely (%d)" % len(cands))
+    from .mir_protocol import struct_fields, _confirm
+    psrc = open(os.path.join(REPO, "src/internal/stringpool.rs")).read()
+    pf = struct_fields(psrc, "StringPool")
+    if "is_modified" not in pf:
+        raise EncodingError("struct StringPool has no field is_modified")
+    lens = {}
+    it_models, what_of, coll = iter_models(ctx, lens, consistent=True)
+    ex = M.Exec(mir, ctx, models=it_models, havoc_unknown=True, max_paths=200000)
+    ex.max_revisit = 3
+    ex.no_inline = [r"CodePage::", r"closure"]
+    outs = ex.run(cands[0], [OpaqueV("builder"), OpaqueV("reader")])
+    g = Group("loaded_pool_clean", ["stringpool::StringPoolBuilder::build_from_data (entry loop unrolled)"], confirm=_confirm,
+              note="every pool returned by build_from_data (<= 2 entries read) has is_modified == false, whatever the file contains: opening a "
+                   "package leaves nothing to save")
+    n = 0
+    for k, o in enumerate(outs):
+        if o.kind != "return" or not (isinstance(o.value, EnumV) and o.value.variant in (0, "Ok")):
+            continue
+        n += 1
+        pool = o.value.fields[0]
+        flag = pool.fields[pf.index("is_modified")] if isinstance(pool, EnumV) and len(pool.fields) == len(pf) else None
+        if isinstance(flag, BoolV):
+            g.queries.append(Query("clean_%d" % k, o.pc + [flag.term], "unsat", note="a freshly loaded string pool can be marked modified (a read-only session would then rewrite it on flush)"))
+        else:
+            g.queries.append(Query("clean_unknown_%d" % k, o.pc, "unsat", note="the loaded pool's is_modified flag is %r" % (flag,)))
+        g.witness.append(Query("w_%d" % k, o.pc, "sat"))
+    if n < 2:
+        raise EncodingError("build_from_data: only %d Ok paths" % n)
+    return [g]
+
+
 def c12_all(mir, ctx):
     return c12_join_group(mir, ctx) + c12_select_gate_group(mir, ctx) + c12_column_lookup_group(mir, ctx)
 
@@ -3428,7 +3491,7 @@ def _proto(which):
 
 BUILDERS = {"C18": c18_groups, "C19": c19_groups, "C14": c14_groups, "C20": c20_all, "C09": c20_groups,
             "C01": _proto({"mutators", "finish", "close"}), "C10": _proto({"mutators", "finish"}),
-            "C15": _proto({"finish", "close"}), "C16": _proto({"readonly"}), "C08": c08_all, "C04": (lambda mir, ctx: _proto({"reject"})(mir, ctx) + c04_create_table_group(mir, ctx) + c05_update_group(mir, ctx) + c05_insert_group(mir, ctx)), "C11": c11_all, "C07": c07_insert_gate_group, "C12": c12_all, "C05": c05_all, "C13": c13_constructor_group, "C03": c03_all}
+            "C15": _proto({"finish", "close"}), "C16": (lambda mir, ctx: _proto({"readonly"})(mir, ctx) + c16_loaded_pool_group(mir, ctx)), "C08": (lambda mir, ctx: c08_all(mir, ctx) + _proto({"finish"})(mir, ctx)), "C04": (lambda mir, ctx: _proto({"reject"})(mir, ctx) + c04_create_table_group(mir, ctx) + c05_update_group(mir, ctx) + c05_insert_group(mir, ctx)), "C11": c11_all, "C07": c07_insert_gate_group, "C12": c12_all, "C05": c05_all, "C13": c13_constructor_group, "C03": c03_all}
 
 
 def native_confirm_c18(vals, work):
